@@ -884,8 +884,28 @@ func mutations(r *rng, valid []byte, n int) [][]byte {
 	var out [][]byte
 	// every truncation (thinned for long inputs)
 	step := 1 + len(valid)/60
+	seen := map[int]bool{}
 	for i := 0; i < len(valid); i += step {
 		out = append(out, append([]byte{}, valid[:i]...))
+		seen[i] = true
+	}
+	// … and every truncation just before, at and just after a separator of the text formats (a cut that leaves a field
+	// empty, or a separator without what follows it, is where hand-written splitting goes wrong); capped for long inputs
+	extra := 0
+	for i, b := range valid {
+		if extra >= 240 {
+			break
+		}
+		if bytes.IndexByte([]byte("\n\t :<>=[]\x00@{}"), b) < 0 {
+			continue
+		}
+		for _, k := range []int{i, i + 1, i + 2} {
+			if k >= 0 && k < len(valid) && !seen[k] {
+				seen[k] = true
+				extra++
+				out = append(out, append([]byte{}, valid[:k]...))
+			}
+		}
 	}
 	vals := []byte{0x00, 0x0a, 0x20, 0x2f, 0xff, '0', '9'}
 	for k := 0; k < n; k++ {
@@ -987,6 +1007,34 @@ func genC19(ctx *Ctx, r *rng) []Case {
 			c.add("refs.load " + hx([]byte("main")) + ":" + hx([]byte(h)))
 		}
 		cases = append(cases, c)
+	}
+	// the text formats: reflog, config file, commit object — every thinned truncation, every truncation around a separator,
+	// random single-byte damage; each reader must answer exactly like the model (an error or entries, never a panic)
+	{
+		a, b2 := strings.Repeat("a", 40), strings.Repeat("b", 40)
+		z := strings.Repeat("0", 40)
+		logv := []byte(z + " " + a + " Test User <test@example.com> 1700000000 +0000\tcommit: first\n" +
+			a + " " + b2 + " Team: Core <t@example.com> 1700000001 -0330\tcommit: second: with colon\n" +
+			b2 + " " + z + " X <x@y.zz> 1700000002 +0545\tbranch: renamed refs/heads/main to refs/heads/dev\n" +
+			z + " " + b2 + " X <x@y.zz> 1700000003 +0545\tbranch: renamed refs/heads/main to refs/heads/dev\n")
+		c := Case{Name: "reflog-damaged", Tag: "reflog-damaged"}
+		for _, m := range mutations(r, logv, nmut*2) {
+			c.add("reflog.parse " + hx(m))
+			c.add(fmt.Sprintf("reflog.get %s %d", hx(m), r.intn(5)))
+		}
+		cases = append(cases, c)
+		cfgv := []byte("[user]\n\tname = Test User\n\temail = test@example.com\n[core]\n\teditor = vim -f\n[alias]\n\tco = x=y [z] # not a comment\n")
+		c2 := Case{Name: "config-damaged", Tag: "config-damaged"}
+		for _, m := range mutations(r, cfgv, nmut*2) {
+			c2.add("config.parse " + hx(m))
+		}
+		cases = append(cases, c2)
+		cmv := []byte("tree " + a + "\nparent " + b2 + "\nauthor Test User <test@example.com> 1700000000 +0900\ncommitter A  B <a@b.cc> 1700000001 -0330\n\nsubject: x\n\nbody\nauthor not a header\n")
+		c3 := Case{Name: "commit-text-damaged", Tag: "commit-text-damaged"}
+		for _, m := range mutations(r, cmv, nmut*2) {
+			c3.add("commit.parse " + hx(m))
+		}
+		cases = append(cases, c3)
 	}
 	// trees
 	{
